@@ -542,6 +542,14 @@ func (f *Frame) instr(in ssa.Instruction) {
 		case *types.Array:
 			f.safety("index", e.inBounds(idx, e.idxLit(fmt.Sprint(u.Len()))), in)
 			f.setVal(in, fmt.Sprintf("(select %s %s)", f.val(in.X), idx))
+		case *types.Basic:
+			if e.bv() {
+				f.havocVal(in, "string index in mode bv")
+			} else {
+				sv := f.val(in.X)
+				f.safety("index", fmt.Sprintf("(and (<= 0 %s) (< %s (str.len %s)))", idx, idx, sv), in)
+				f.setVal(in, fmt.Sprintf("(str.to_code (str.at %s %s))", sv, idx))
+			}
 		default:
 			f.havocVal(in, "index of "+in.X.Type().String())
 		}
@@ -661,6 +669,12 @@ func (f *Frame) instr(in ssa.Instruction) {
 		f.lookup(in)
 	case *ssa.Range:
 		f.vals[in] = f.val(in.X) // iterator = the collection itself
+		if mt, ok := in.X.Type().Underlying().(*types.Map); ok {
+			comp := seenComp(f, in)
+			sortName := fmt.Sprintf("(Array %s Bool)", e.sortOf(mt.Key()))
+			e.comp(f.st, comp, sortName)
+			e.setComp(f.st, comp, fmt.Sprintf("((as const %s) false)", sortName))
+		}
 	case *ssa.Next:
 		f.next(in)
 	case *ssa.Extract:
